@@ -129,7 +129,7 @@ class UnitBuilder:
             text = src.item(kind, nme.strip())
             is_fn = kind == 'fn'
             name = sel
-        raw_sha = rsx.sha(rsx.norm(text))
+        raw_sha = rsx.sha(rsx.norm_fp(text))
         for d in directives:
             if d[0] == 'fingerprint' and d[1].strip() != raw_sha:
                 # an ASSUMED (unverified) function is pinned to the text its contract was argued for
